@@ -34,13 +34,14 @@ def parseStep (tok : String) : Option (Req × Resp) :=
       let noCache := fl.contains 'n'
       -- the client's "Cache-Control: no-cache" is a request header like any other
       let h' := if noCache then h ++ [("Cache-Control".toUTF8.toList, "no-cache".toUTF8.toList)] else h
-      some ({ hdrs := h', noCache := noCache }, { varyLines := v, hasValidator := fl.contains 'l' })
+      some ({ hdrs := h', noCache := noCache }, { varyLines := v, hasValidator := fl.contains 'l', notModified := fl.contains 'm' })
     | _, _ => none
   | _ => none
 
 def showObs : Obs → String
   | .hit i => s!"h{i}"
   | .origin => "o"
+  | .revalidated i => s!"r{i}"
   | .markerServed => "marker"
 
 /-- insertion sort on hex strings (canonical order of the final marks) -/
